@@ -41,6 +41,9 @@ var curated = []struct {
 	{1, "N0o,N0o,d0,d0;N0o,d0"},
 	{2, "N0o,N1o,d0,d1;N1o,N0o,d1,d0"},
 	{2, "N0f,N1o,d1;S0,d0;G,R0"},
+	{1, "Z0,d0;Z0,d0"},
+	{1, "Z0,d0;N0o,d0;S0,d0"},
+	{1, "N0f;Z0,d0;N0o,d0"},
 	{1, "N0o,d0;D0"},
 	{1, "N0o;D0,D0"},
 }
@@ -93,8 +96,11 @@ func randProg(rng *core.Rand, nk, maxOps int, rogue bool) string {
 			owed = append(owed, k)
 		case r < 46:
 			ops = append(ops, "N"+strconv.Itoa(k)+"f")
-		case r < 60:
+		case r < 54:
 			ops = append(ops, "S"+strconv.Itoa(k))
+			owed = append(owed, k)
+		case r < 60:
+			ops = append(ops, "Z"+strconv.Itoa(k))
 			owed = append(owed, k)
 		case r < 84:
 			if len(owed) > 0 {
@@ -133,7 +139,7 @@ var malformed = []string{
 	"stress 1 4 100 1", "stress 1 1 100 1 a", "stress 1 9 100 1 a", "stress 1 4 0 1 a", "stress 1 4 5001 1 a",
 	"stress 1 4 100 0 a", "stress 1 4 100 5 b", "stress 1 4 100 1 c", "stress x 4 100 1 a", "stress 1234567890 4 100 1 a",
 	"stress 1 4 1e2 1 a", "stress -1 4 100 1 a",
-	"writers 1 N0o 0", "writers 1 O0o,d0 0", "sched 1 O0o 0", "sched 1 c 0", "writers 1 O1o 0", "writers 1 O0x 0", "writers 1 O0o,G 0", "writers 1 c,O0o 0", "writers 1 O0o,c,c 0",
+	"writers 1 N0o 0", "writers 1 O0o,d0 0", "sched 1 O0o 0", "sched 1 c 0", "writers 1 O1o 0", "writers 1 O0x 0", "writers 1 O0o,G 0", "writers 1 c,O0o 0", "writers 1 O0o,c,c 0", "hosts 1 N0o 0", "hosts 1 P0,c,P0 0", "hosts 1 P1 0", "sched 1 P0 0", "writers 1 P0 0", "hosts 1 O0o 0", "sched 1 Z1 0",
 }
 
 // client lines: configs that open log writers (some OpenWriter calls fail) and close their logs
@@ -148,6 +154,31 @@ var curatedWriters = []struct {
 	{2, "O0o,O1f,c;O0o,O1o,c"},
 	{2, "O0o,O0o,O1o,c;O1f,O0o,c"},
 	{1, "c;O0o,c"},
+}
+
+// the reverse proxy's hosts-pool client: handlers (or requests with dynamic upstreams) that provision
+// upstreams and clean up
+var curatedHosts = []struct {
+	nk    int
+	progs string
+}{
+	{1, "P0,c;P0,c"},
+	{1, "P0,c;P0,c;P0,c"},
+	{2, "P0,P1,c;P1,P0,c"},
+	{2, "P0,P0,P1,c;P1,c"},
+	{1, "P0;P0,c"},
+	{1, "c;P0,c"},
+}
+
+func randHosts(rng *core.Rand, nk int) string {
+	var ops []string
+	for n := 1 + rng.Intn(4); n > 0; n-- {
+		ops = append(ops, "P"+strconv.Itoa(rng.Intn(nk)))
+	}
+	if rng.Chance(9, 10) {
+		ops = append(ops, "c")
+	}
+	return strings.Join(ops, ",")
 }
 
 func randWriters(rng *core.Rand, nk int) string {
@@ -212,6 +243,30 @@ func (prop) Generate(rng *core.Rand, tier string, emit func(string)) {
 		for i := 0; i < sample3; i++ {
 			emit(pre + randSched(rng, nt, 4+rng.Intn(16)))
 		}
+	}
+	for _, cs := range curatedHosts {
+		nt := strings.Count(cs.progs, ";") + 1
+		pre := "hosts " + strconv.Itoa(cs.nk) + " " + cs.progs + " "
+		emit(pre + "-")
+		if nt == 2 {
+			enumerate(nt, enumLen2-1, func(s string) { emit(pre + s) })
+		}
+		for i := 0; i < sample3; i++ {
+			emit(pre + randSched(rng, nt, 4+rng.Intn(16)))
+		}
+	}
+	for i := 0; i < nRandom/8; i++ {
+		nk := 1 + rng.Intn(2)
+		nt := 2 + rng.Intn(3)
+		var ps []string
+		for t := 0; t < nt; t++ {
+			ps = append(ps, randHosts(rng, nk))
+		}
+		sc := "-"
+		if l := rng.Intn(30); l > 0 {
+			sc = randSched(rng, nt, l)
+		}
+		emit("hosts " + strconv.Itoa(nk) + " " + strings.Join(ps, ";") + " " + sc)
 	}
 	for i := 0; i < nRandom/5; i++ {
 		nk := 1 + rng.Intn(2)
